@@ -219,6 +219,22 @@ func (c *Ctx) callMods(info *types.Info, call *ast.CallExpr, ms *modSet, depth i
 	}
 	fn, _ := typeutil.Callee(info, call).(*types.Func)
 	if fn == nil {
+		if info == c.info {
+			if ct, _ := c.funcValueContract(call); ct != nil && ct.HasMod {
+				env := &SpecEnv{c: c, st: newState(), bound: map[string]Val{}}
+				for _, item := range ct.Modifies {
+					keys, _, err := c.resolveMod(env, item, nil)
+					if err != nil || keys == nil {
+						ms.all = true
+						return
+					}
+					for _, k := range keys {
+						ms.keys[k] = heapSorts[k]
+					}
+				}
+				return
+			}
+		}
 		ms.all = true
 		return
 	}
@@ -228,33 +244,7 @@ func (c *Ctx) callMods(info *types.Info, call *ast.CallExpr, ms *modSet, depth i
 		ct = e.contractFor(fn)
 	}
 	if ct != nil {
-		if !ct.HasMod {
-			ms.all = true
-			return
-		}
-		env := &SpecEnv{c: c, st: newState(), bound: map[string]Val{}}
-		if !ct.Extern {
-			env.pkg = fn.Pkg()
-		}
-		// bind names to dummy values carrying the Go types so that x.f items resolve
-		recvName, pnames, _ := c.calleeNames(fn, ct)
-		sig := fn.Type().(*types.Signature)
-		if sig.Recv() != nil && recvName != "" {
-			env.bound[recvName] = Val{T: "dummy", S: c.sortOf(sig.Recv().Type()), GT: sig.Recv().Type()}
-		}
-		for i := 0; i < sig.Params().Len() && i < len(pnames); i++ {
-			env.bound[pnames[i]] = Val{T: "dummy", S: c.sortOf(sig.Params().At(i).Type()), GT: sig.Params().At(i).Type()}
-		}
-		for _, item := range ct.Modifies {
-			keys, _, err := c.resolveMod(env, item, fn)
-			if err != nil || keys == nil {
-				ms.all = true
-				return
-			}
-			for _, k := range keys {
-				ms.keys[k] = heapSorts[k]
-			}
-		}
+		c.contractMods(fn, ct, ms)
 		return
 	}
 	if e.isPure(fn) || e.isNoEffect(fn) {
@@ -264,6 +254,10 @@ func (c *Ctx) callMods(info *types.Info, call *ast.CallExpr, ms *modSet, depth i
 	isIface := sig.Recv() != nil && types.IsInterface(sig.Recv().Type())
 	if isIface && depth < 6 {
 		if fi, _ := c.devirtTarget(info, call, fn); fi != nil {
+			if mct := c.eng.contractFor(fi.Obj); mct != nil {
+				c.contractMods(fi.Obj, mct, ms)
+				return
+			}
 			c.collectMods(fi.Pkg.TypesInfo, fi.Decl.Body, ms, depth+1)
 			return
 		}
@@ -540,7 +534,8 @@ func (c *Ctx) execRange(st *State, x *ast.RangeStmt, k konts) {
 	switch u := xt.Underlying().(type) {
 	case *types.Slice, *types.Array:
 		// hidden index
-		extra := map[string]Val{"$i": {T: "0", S: "Int", GT: intT}}
+		coll = c.named(st, "coll", coll)
+		extra := map[string]Val{"$i": {T: "0", S: "Int", GT: intT}, "$coll": coll}
 		bindKey := func(s *State, i string) {
 			if x.Key != nil {
 				setVar(s, x.Key, Val{T: i, S: "Int", GT: intT})
@@ -553,7 +548,7 @@ func (c *Ctx) execRange(st *State, x *ast.RangeStmt, k konts) {
 		iv := c.fresh("ri", "Int")
 		st.assume("(<= 0 " + iv + ")")
 		st.assume("(<= " + iv + " " + sLen(coll) + ")")
-		extra = map[string]Val{"$i": {T: iv, S: "Int", GT: intT}}
+		extra = map[string]Val{"$i": {T: iv, S: "Int", GT: intT}, "$coll": coll}
 		bindKey(st, iv)
 		c.checkInvs(st, id, ls, pos, extra, "")
 		// exit
@@ -574,7 +569,7 @@ func (c *Ctx) execRange(st *State, x *ast.RangeStmt, k konts) {
 		after := func(s *State) {
 			nx := "(+ " + iv + " 1)"
 			bindKey(s, nx)
-			c.checkInvs(s, id, ls, pos, map[string]Val{"$i": {T: nx, S: "Int", GT: intT}}, "step")
+			c.checkInvs(s, id, ls, pos, map[string]Val{"$i": {T: nx, S: "Int", GT: intT}, "$coll": coll}, "step")
 			c.paths++
 		}
 		c.pointClauses(sA, "loop "+id+" body", pos)
@@ -658,5 +653,36 @@ func (c *Ctx) execRange(st *State, x *ast.RangeStmt, k konts) {
 		c.execBlock(sA, x.Body.List, konts{next: after, cont: after, brk: brk, ret: ret, retDone: k.ret})
 	default:
 		c.abort("range over %s not supported at %s", xt, c.pos(x))
+	}
+}
+
+// contractMods adds the heap keys a callee contract may modify.
+func (c *Ctx) contractMods(fn *types.Func, ct *FuncContract, ms *modSet) {
+	if !ct.HasMod {
+		ms.all = true
+		return
+	}
+	env := &SpecEnv{c: c, st: newState(), bound: map[string]Val{}}
+	if !ct.Extern {
+		env.pkg = fn.Pkg()
+	}
+	// bind names to dummy values carrying the Go types so that x.f items resolve
+	recvName, pnames, _ := c.calleeNames(fn, ct)
+	sig := fn.Type().(*types.Signature)
+	if sig.Recv() != nil && recvName != "" {
+		env.bound[recvName] = Val{T: "dummy", S: c.sortOf(sig.Recv().Type()), GT: sig.Recv().Type()}
+	}
+	for i := 0; i < sig.Params().Len() && i < len(pnames); i++ {
+		env.bound[pnames[i]] = Val{T: "dummy", S: c.sortOf(sig.Params().At(i).Type()), GT: sig.Params().At(i).Type()}
+	}
+	for _, item := range ct.Modifies {
+		keys, _, err := c.resolveMod(env, item, fn)
+		if err != nil || keys == nil {
+			ms.all = true
+			return
+		}
+		for _, k := range keys {
+			ms.keys[k] = heapSorts[k]
+		}
 	}
 }
